@@ -25,7 +25,9 @@ fn fastq_bytes(recs: &[(String, Vec<u8>)]) -> Vec<u8> {
     for (id, seq) in recs {
         s.push(b'@'); s.extend_from_slice(id.as_bytes()); s.push(b'\n');
         s.extend_from_slice(seq); s.extend_from_slice(b"\n+\n");
-        s.extend(std::iter::repeat(b'I').take(seq.len())); s.push(b'\n');
+        // legal Phred+33 quality characters include '@' (Q31) and '+' (Q10), also as the first character of the line
+        for i in 0..seq.len() { s.push(b"@I+5@"[(i + seq.len()) % 5]); }
+        s.push(b'\n');
     }
     s
 }
